@@ -1777,12 +1777,22 @@ pub fn greatest() -> impl Function {
 
 /// Builds the lower `Function`
 pub fn lower() -> impl Function {
-    PartitionnedMonotonic::univariate(data_type::Text::default(), |x| x.to_lowercase())
+    // Not monotonic for the byte order of text intervals ('Z' < 'a' but "z" > "a")
+    Pointwise::univariate(
+        data_type::Text::default(),
+        data_type::Text::default(),
+        |x| x.to_lowercase(),
+    )
 }
 
 /// Builds the upper `Function`
 pub fn upper() -> impl Function {
-    PartitionnedMonotonic::univariate(data_type::Text::default(), |x| x.to_uppercase())
+    // Not monotonic for the byte order of text intervals (see lower)
+    Pointwise::univariate(
+        data_type::Text::default(),
+        data_type::Text::default(),
+        |x| x.to_uppercase(),
+    )
 }
 
 /// Builds the char_length `Function`
